@@ -4,7 +4,43 @@ package labels
 
 // Contracts for govc (contract-based deductive verification). Comment-only file.
 
-// Matcher list evaluation is a deterministic function of the matcher list and the label set
-// (its own semantics is property C16). Used as an opaque predicate by routing, silences and inhibition.
+// ---- C16: what it means for a matcher (list) to match. Regular-expression matching itself is package regexp
+// (trusted): reMatch(re, s) is an uninterpreted predicate; NewMatcher compiles the fully anchored "^(?:" v ")$".
+//@ uf reMatch(*regexp.Regexp, string) bool
+//@ spec validMatcher(m *Matcher) bool = m != nil && (m.Type == MatchEqual || m.Type == MatchNotEqual || ((m.Type == MatchRegexp || m.Type == MatchNotRegexp) && m.re != nil))
+//@ spec holds(m *Matcher, s string) bool =
+//@     m.Type == MatchEqual ? s == m.Value : (m.Type == MatchNotEqual ? s != m.Value : (m.Type == MatchRegexp ? reMatch(m.re, s) : !reMatch(m.re, s)))
+//@ spec lvalue(L model.LabelSet, n string) string = n in L ? L[n] : ""
+
+//@ func (*Matcher).Matches
+//@   props C16
+//@   requires validMatcher(m)
+//@   after call Regexp).MatchString assume res0 == reMatch(m.re, s)
+//@   ensures [semantics] result == holds(m, s)
+//@   assigns nothing
+
+// A matcher list matches a label set exactly when every matcher holds for the label's value, a missing label
+// reading as the empty string. (Declared pure: other packages use it as a deterministic predicate of the list and
+// the label set, both immutable once built.)
 //@ func (Matchers).Matches
+//@   props C16
 //@   pure
+//@   assumes forall i int :: 0 <= i && i < len(ms) ==> validMatcher(ms[i])
+//@   ensures [all-hold] result == (forall i int :: 0 <= i && i < len(ms) ==> holds(ms[i], lvalue(lset, ms[i].Name)))
+//@   loop 1 invariant rangeindex < len(ms) && (forall k int :: 0 <= k && k <= rangeindex ==> holds(ms[k], lvalue(lset, ms[k].Name)))
+
+// a matcher set (silences with several matcher lists) matches when one of its lists does
+//@ func (MatcherSet).Matches
+//@   props C16 C02
+//@   pure
+//@   requires forall i int :: 0 <= i && i < len(ms) ==> ms[i] != nil
+//@   ensures [any-list] result == (exists i int :: 0 <= i && i < len(ms) && deref(ms[i]).Matches(lset))
+//@   loop 1 invariant rangeindex < len(ms) && (forall k int :: 0 <= k && k <= rangeindex ==> !deref(ms[k]).Matches(lset))
+
+//@ func NewMatcher
+//@   props C16
+//@   ensures [fields] result1 == nil ==> result0 != nil && fresh(result0) && result0.Type == t && result0.Name == n && result0.Value == v
+//@   ensures [regexp-compiled] result1 == nil && (t == MatchRegexp || t == MatchNotRegexp) ==> result0.re != nil
+//@   ensures [error-means-nothing] result1 != nil ==> result0 == nil
+//@   after call regexp.Compile assume (res1 == nil) == (res0 != nil)
+//@   assigns nothing
